@@ -190,6 +190,18 @@ def gen_inputs(rng, tier, hist):
         for cut in (j * cd.CHUNK - 1, j * cd.CHUNK, j * cd.CHUNK + 1):
             addz("z_chunk_boundary", "unz", frame(noise[:j * cd.CHUNK + 40], big[:cut]))
             hist["z_chunk_boundary:truncated_at=%d*16384%+d" % (j, cut - j * cd.CHUNK)] = 1
+    # (h) the two zlib header bytes: every (CMF, FLG) pair with a valid header checksum for the CMF values that occur
+    # or nearly occur (deflate with each window size, a wrong method, an over-large window) — among them the FLG values
+    # with FDICT set, for which inflate() answers Z_NEED_DICT (a positive return code that is not progress): the
+    # decoder must refuse, not spin
+    hdr_frames = [frame(p, zlib.compress(p, 6)) for p in pays[:3 if tier == "quick" else 12] if len(p) >= 5]
+    for fb in hdr_frames:
+        for cmf in (0x78, 0x08, 0x18, 0x28, 0x38, 0x48, 0x58, 0x68, 0x79, 0x88, 0x77):
+            for flg in range(256):
+                if (cmf * 256 + flg) % 31 == 0:
+                    addz("z_header", "unz", fb[:4] + bytes([cmf, flg]) + fb[6:])
+                    key = "z_header:fdict=%d" % ((flg >> 5) & 1)
+                    hist[key] = hist.get(key, 0) + 1
     # (g) the 1.x beat-grid cap: 32768 markers accepted, 32769 rejected by the count check itself (the body is complete,
     # so the size check cannot reject it first); 2 accepted, 1 rejected.
     def beat_payload(n_markers):
